@@ -1,7 +1,8 @@
 //! Correspondence harness: runs case lines against the real stun-types / stun-proto code.
-//!   stunharness gen  <family> <seed> <count> <tier>     case lines (no observation)
+//!   stunharness gen  <family> <seed> <count> <tier> [part parts]    case lines (no observation)
 //!   stunharness exec                                    stdin case lines -> `line => observation`
 //!   stunharness run  <family> <seed> <count> <tier>     gen | exec
+mod fam_mtype;
 mod fam_tcp;
 mod util;
 
@@ -14,6 +15,7 @@ fn exec_line(lhs: &str) -> String {
         let (fam, kv) = Kv::parse(&lhs_owned);
         match fam {
             "tcp" => fam_tcp::exec(&kv),
+            "mtype" => fam_mtype::exec(&kv),
             _ => format!("unknown-family {fam}"),
         }
     });
@@ -23,11 +25,12 @@ fn exec_line(lhs: &str) -> String {
     }
 }
 
-fn gen(fam: &str, seed: u64, count: usize, thorough: bool) -> Vec<String> {
+fn gen(fam: &str, seed: u64, count: usize, thorough: bool, part: u64, parts: u64) -> Vec<String> {
     let mut rng = Rng::new(seed);
     let mut out = vec![];
     match fam {
         "tcp" => fam_tcp::gen(&mut rng, count, thorough, &mut out),
+        "mtype" => fam_mtype::gen(&mut rng, count, thorough, &mut out, part, parts),
         _ => panic!("unknown family {fam}"),
     }
     out
@@ -45,7 +48,10 @@ fn main() {
             let seed: u64 = args[3].parse().unwrap();
             let count: usize = args[4].parse().unwrap();
             let thorough = args.get(5).map(|s| s == "thorough").unwrap_or(false);
-            let lines = gen(fam, seed, count, thorough);
+            // exhaustive enumerations are split across workers: part/parts
+            let part: u64 = args.get(6).and_then(|s| s.parse().ok()).unwrap_or(0);
+            let parts: u64 = args.get(7).and_then(|s| s.parse().ok()).unwrap_or(1);
+            let lines = gen(fam, seed, count, thorough, part, parts);
             for l in lines {
                 if args[1] == "gen" {
                     writeln!(w, "{l}").unwrap();
